@@ -66,6 +66,30 @@ func (s signer) SignWithAlgorithm(_ io.Reader, data []byte, algorithm string) (*
 	return s.agent.SignWithFlags(s.cert.Key, data, flags)
 }
 
+// lockedSigner wraps a signer of the underlying agent so that its requests are serialised, by the
+// shim's mutex, with every other user of the single connection to the underlying agent.
+type lockedSigner struct {
+	ssh.Signer
+	mu *sync.RWMutex
+}
+
+// Sign signs the data with the wrapped signer while holding the shim's mutex.
+func (l lockedSigner) Sign(rand io.Reader, data []byte) (*ssh.Signature, error) {
+	l.mu.Lock()
+	defer l.mu.Unlock()
+	return l.Signer.Sign(rand, data)
+}
+
+// SignWithAlgorithm signs the data with the specified algorithm while holding the shim's mutex.
+func (l lockedSigner) SignWithAlgorithm(rand io.Reader, data []byte, algorithm string) (*ssh.Signature, error) {
+	l.mu.Lock()
+	defer l.mu.Unlock()
+	if as, ok := l.Signer.(ssh.AlgorithmSigner); ok {
+		return as.SignWithAlgorithm(rand, data, algorithm)
+	}
+	return l.Signer.Sign(rand, data)
+}
+
 type hashcode [sha256.Size]byte
 
 func hash(data []byte) hashcode {
@@ -538,6 +562,8 @@ func (s *Server) Signers() ([]ssh.Signer, error) {
 		return nil, err
 	}
 	for _, signer := range uss {
+		// The signers of the underlying agent talk to it directly; serialise them with the shim's mutex.
+		signer = lockedSigner{signer, &s.mu}
 		if !s.noUpstreamSSHCACert {
 			signers = append(signers, signer)
 			continue
